@@ -64,6 +64,9 @@ def containers(rng, name, blob, tier):
     for bid, indep, ck, cs in ([(4, True, False, False), (4, False, True, True)] if tier == "quick" else
                                [(4, True, False, False), (4, False, True, True), (5, True, True, False), (6, False, False, True), (7, True, False, False)]):
         forms.append(("lz4-b%d-%s" % (bid, "i" if indep else "l"), {name + ".lz4": gen.lz4_bytes(blob, bid, indep, ck, cs)}, name + ".lz4"))
+    # blocks that end early (a streaming writer flushes): decoded block lengths of 1000, 70001 and 100000 bytes
+    for fe in ([70001] if tier == "quick" else [1000, 70001, 100000]):
+        forms.append(("lz4-flush%d" % fe, {name + ".lz4": gen.lz4_bytes(blob, 4 if fe < 65536 else 5, True, False, False, flush_every=fe)}, name + ".lz4"))
     for fmt, fl in ((tarfile.USTAR_FORMAT, "ustar"), (tarfile.GNU_FORMAT, "gnu"), (tarfile.PAX_FORMAT, "pax")):
         forms.append(("tar-" + fl, {"arc.tar": gen.tar_bytes([(name, blob)], fmt=fmt, mtime=1700000000)}, "arc.tar"))
     return forms
@@ -352,6 +355,22 @@ def run(pid, tier, seed):
                                   {"kind": "bundle", "members": members, "opts": opts, "rc": b.rc})
                 if os.listdir(tmp):
                     rep.violation("tempfile-left:bundle", "temp files left: %s" % os.listdir(tmp), {"kind": "bundle", "members": members})
+        # journal / event log in LZ4 frames whose blocks end early (unpacked through a temp file by a copy loop of its own)
+        for pname, opts in (("u.journal", ["--journal-output", "export"]), ("r.journal", ["--journal-output", "short-iso-precise"]), ("k.evtx", [])):
+            for fe in ([70001] if tier == "quick" else [1000, 70001, 100000]):
+                fname = "odd%d_%s.lz4" % (fe, pname)
+                with open(os.path.join(sdir, fname), "wb") as f:
+                    f.write(gen.lz4_bytes(rd(pname), 5, True, False, False, flush_every=fe))
+                tmp = os.path.join(sdir, "tmpo")
+                os.makedirs(tmp, exist_ok=True)
+                a = common.run_s4(["--color", "never"] + opts + [pname], cwd=sdir, timeout=300)
+                b = common.run_s4(["--color", "never"] + opts + [fname], cwd=sdir, tmpdir=tmp, timeout=300)
+                bundles += 1
+                if b.crashed or a.out != b.out or not a.out:
+                    rep.violation("differs:lz4-flush:%s" % pname.split(".")[1], "%s in an LZ4 frame with blocks of %d bytes: prints %d bytes, the plain file %d"
+                                  % (pname, fe, len(b.out), len(a.out)), {"kind": "oddlz4", "file": pname, "flush_every": fe, "rc": b.rc,
+                                                                           "stderr": b.err[-200:].decode(errors="replace")})
+                os.remove(os.path.join(sdir, fname))
         rep.coverage = {"states": states, "transitions": trans, "traces_validated_against_impl": traces_ok,
                         "evaluations": nblocks + len(runs) + len(shipped), "distinct_nontrivial": nontriv + len([o for o in outs if len(meta[o["id"]][0]) > meta[o["id"]][1]]),
                         "rule": "in-process: one evaluation = one read_block call on a real container compared with the plain slice; "
